@@ -15,31 +15,60 @@ use serde_json::{json, Value};
 use std::sync::Arc;
 
 #[allow(dead_code)]
-#[path = "/repo/src/cli/output.rs"]
+// relative on purpose: the file must come from the same checkout as the `query_engine` path dependency
+// (/verif/harness/src/../../../repo = /repo; a copy of /verif next to a worktree named `repo` picks up that worktree)
+#[path = "../../../repo/src/cli/output.rs"]
 mod cli_output;
 use cli_output::{OutputFormat, OutputFormatter};
 
 fn cps(s: &str) -> Value { Value::Array(s.chars().map(|c| json!(c as u32)).collect()) }
 fn from_cps(v: &Value) -> String { v.as_array().map(|a| a.iter().filter_map(|x| x.as_u64().and_then(|n| char::from_u32(n as u32))).collect()).unwrap_or_default() }
 
+// strings: character classes interleaved at random (plain ASCII | needs CSV quoting / JSON escaping | C0 controls | 2-, 3-, 4-byte UTF-8)
+const PLAIN: &[char] = &['a', 'b', 'z', 'A', 'N', '0', '1', '9', ' ', '-', '_', '.', '/', ':', ';', '{', '}', '[', ']', '\'', '(', ')', '=', '+', '~', '\u{7f}'];
+const ESC: &[char] = &['"', '"', ',', ',', '\n', '\r', '\n', '\r', '\\', '\t'];
+const CTRL: &[char] = &['\u{0}', '\u{1}', '\u{8}', '\u{b}', '\u{c}', '\u{1b}', '\u{1f}'];
+const UTF2: &[char] = &['é', 'ß', 'ñ', '\u{a0}', '\u{80}', '\u{7ff}', 'Ω'];
+const UTF3: &[char] = &['漢', '€', '\u{2028}', '\u{feff}', '\u{800}', '\u{fffd}', '\u{d7ff}', '\u{e000}', '\u{ffff}'];
+const UTF4: &[char] = &['😀', '𝄞', '\u{10000}', '\u{10ffff}'];
+
+fn one(r: &mut Rng, class: u64) -> char {
+    match class { 0 => *r.pick(PLAIN), 1 => *r.pick(ESC), 2 => *r.pick(CTRL), 3 => *r.pick(UTF2), 4 => *r.pick(UTF3), _ => *r.pick(UTF4) }
+}
+
+/// profile 0: plain ASCII; 1: ASCII + escapes/controls; 2: ASCII + non-ASCII; 3 (60 %): every class interleaved, and for
+/// length >= 2 at least one character needing an escape/quote AND one non-ASCII character are forced in.
 fn text(r: &mut Rng) -> String {
-    let specials = [',', '"', '\n', '\r', '\\', '\t', ' ', '\u{0}', '\u{1}', '\u{8}', '\u{b}', '\u{c}', '\u{1f}', '\u{7f}', '/', ':', '{', '}', '[', ']', '\'',
-                    'é', 'ß', '漢', '\u{2028}', '\u{feff}', '😀', '\u{a0}', 'N', 'a', 'b', '0', '1'];
-    let n = match r.below(8) { 0 => 0, 1 => 1, 2..=5 => r.below(6), _ => r.below(20) };
-    let mode = r.below(4);
-    (0..n).map(|_| match mode {
-        0 => (b'a' + r.below(26) as u8) as char,
-        1 => *r.pick(&specials),
-        2 => if r.chance(1, 3) { *r.pick(&specials) } else { (b' ' + r.below(95) as u8) as char },
-        _ => char::from_u32(r.below(0x30) as u32).unwrap_or('x'),
-    }).collect()
+    let n = match r.below(8) { 0 => 0, 1 => 1, 2..=5 => 2 + r.below(6), _ => 2 + r.below(24) } as usize;
+    let profile = match r.below(10) { 0 => 0, 1 | 2 => 1, 3 => 2, _ => 3 };
+    let mut cs: Vec<char> = Vec::with_capacity(n);
+    for _ in 0..n {
+        let class = match profile {
+            0 => 0,
+            1 => { let k = r.below(4); if k < 2 { 0 } else { k - 1 } }          // plain, plain, esc, ctrl
+            2 => { let k = r.below(5); if k < 2 { 0 } else { k + 1 } }          // plain, plain, utf2, utf3, utf4
+            _ => r.below(6),
+        };
+        let c = one(r, class);
+        cs.push(c);
+    }
+    if profile == 3 && n >= 2 {
+        let i = r.below(n as u64) as usize;
+        let mut j = r.below(n as u64 - 1) as usize;
+        if j >= i { j += 1; }
+        let ec = if r.chance(1, 8) { 2 } else { 1 };
+        let uc = r.below(3) + 3;
+        cs[i] = one(r, ec);
+        cs[j] = one(r, uc);
+    }
+    cs.into_iter().collect()
 }
 
 fn name(r: &mut Rng) -> String {
     match r.below(10) {
-        0 => "COALESCE(a, b)".into(), 1 => "a\"b".into(), 2 => "x\\y".into(), 3 => "col\r".into(), 4 => "l1\nl2".into(), 5 => "tab\there".into(),
-        6 => text(r),
-        _ => format!("c{}", r.below(50)),
+        0 => "COALESCE(a, b)".into(), 1 => "r\u{e9}sum\u{e9} \"x\"".into(), 2 => "x\\y".into(), 3 => "col\r".into(), 4 => "l1\nl2\u{6f22}".into(),
+        5 | 6 | 7 => text(r),
+        _ => { let k = r.below(50); format!("c{k}") }
     }
 }
 
